@@ -254,6 +254,24 @@ Qed.
 Definition drawn (a : bitarr) (n : Z) (ts : list (Z * Z * Z)) (k : positive) : bool :=
   existsb (fun t : Z * Z * Z => let '(idx, x, y) := t in ba_bit a idx && Pos.eqb k (az_key n x y)) ts.
 
+Definition az_mark_bad (m : azmat) : azmat :=
+  {| am_size := am_size m; am_cells := am_cells m; am_bad := true |}.
+
+Lemma draw_step a m idx x y ts :
+  az_draw_triples a ((idx, x, y) :: ts) m =
+  az_draw_triples a ts (match az_getbit a idx with
+                        | Some true => az_set m x y
+                        | Some false => m
+                        | None => az_mark_bad m
+                        end).
+Proof. reflexivity. Qed.
+
+Lemma az_set_in_range m x y : in_range (am_size m) x y = true ->
+  az_set m x y = {| am_size := am_size m;
+                    am_cells := PositiveSet.add (az_key (am_size m) x y) (am_cells m);
+                    am_bad := am_bad m |}.
+Proof. unfold in_range, az_set. intros ->. reflexivity. Qed.
+
 Lemma draw_triples_spec (a : bitarr) (len : Z) : forall ts m,
   ba_len a = len ->
   forallb (triple_ok (am_size m) len) ts = true ->
@@ -262,19 +280,18 @@ Lemma draw_triples_spec (a : bitarr) (len : Z) : forall ts m,
   /\ forall k, PositiveSet.mem k (am_cells (az_draw_triples a ts m))
                = PositiveSet.mem k (am_cells m) || drawn a (am_size m) ts k.
 Proof.
-  unfold az_draw_triples.
   induction ts as [|[[idx x] y] ts IH]; intros m Hlen Hok.
   - simpl. repeat split; auto. intros k. rewrite orb_false_r. reflexivity.
   - cbn [forallb] in Hok. apply andb_true_iff in Hok. destruct Hok as [Ht Hok].
     unfold triple_ok in Ht. apply andb_true_iff in Ht. destruct Ht as [Ht Hi2].
     apply andb_true_iff in Ht. destruct Ht as [Hr Hi1].
-    cbn [fold_left].
+    rewrite draw_step.
     assert (Hget : az_getbit a idx = Some (ba_bit a idx)).
     { unfold az_getbit, ba_bit. rewrite Hlen.
       destruct (idx <? 0) eqn:E1; [lia|]. destruct (len <=? idx) eqn:E2; [lia|]. reflexivity. }
     rewrite Hget.
     destruct (ba_bit a idx) eqn:Eb.
-    + unfold az_set at 1. unfold in_range in Hr. rewrite Hr.
+    + rewrite (az_set_in_range m x y Hr).
       set (m1 := {| am_size := am_size m;
                     am_cells := PositiveSet.add (az_key (am_size m) x y) (am_cells m);
                     am_bad := am_bad m |}).
@@ -288,6 +305,10 @@ Proof.
       intros k. rewrite Hc. cbn [drawn existsb]. rewrite Eb. reflexivity.
 Qed.
 
+Lemma set_all_step m x y cells :
+  az_set_all ((x, y) :: cells) m = az_set_all cells (az_set m x y).
+Proof. reflexivity. Qed.
+
 Lemma set_all_spec : forall cells m,
   forallb (fun p : Z * Z => in_range (am_size m) (fst p) (snd p)) cells = true ->
   am_size (az_set_all cells m) = am_size m
@@ -296,11 +317,10 @@ Lemma set_all_spec : forall cells m,
                = PositiveSet.mem k (am_cells m)
                  || existsb (Pos.eqb k) (map (ckey (am_size m)) cells).
 Proof.
-  unfold az_set_all.
   induction cells as [|[x y] cells IH]; intros m Hok.
   - simpl. repeat split; auto. intros k. rewrite orb_false_r. reflexivity.
   - cbn [forallb fst snd] in Hok. apply andb_true_iff in Hok. destruct Hok as [Hr Hok].
-    cbn [fold_left fst snd]. unfold az_set at 1. unfold in_range in Hr. rewrite Hr.
+    rewrite set_all_step, (az_set_in_range m x y Hr).
     set (m1 := {| am_size := am_size m;
                   am_cells := PositiveSet.add (az_key (am_size m) x y) (am_cells m);
                   am_bad := am_bad m |}).
@@ -346,4 +366,278 @@ Proof.
   intros Hx Hy. unfold sp_pix.
   destruct (x <? 0) eqn:E1; [lia|]. destruct (y <? 0) eqn:E2; [lia|]. cbn [orb].
   rewrite az_rows_nth by lia. rewrite az_row_nth by lia. f_equal; lia.
+Qed.
+
+(* ------------------------------------------------------------------ *)
+(* drawn cells under distinct keys                                      *)
+Lemma nodup_app_disjoint {A} : forall (l1 l2 : list A) a,
+  NoDup (l1 ++ l2) -> In a l1 -> In a l2 -> False.
+Proof.
+  induction l1 as [|x l1 IH]; intros l2 a Hnd H1 H2; [destruct H1|].
+  simpl in Hnd. inversion Hnd as [|? ? Hnin Hnd']; subst.
+  destruct H1 as [->|H1].
+  - apply Hnin. apply in_or_app. auto.
+  - eapply IH; eauto.
+Qed.
+
+Lemma drawn_true_iff a n ts k :
+  drawn a n ts k = true <->
+  exists idx x y, In (idx, x, y) ts /\ ba_bit a idx = true /\ k = az_key n x y.
+Proof.
+  unfold drawn. rewrite existsb_exists. split.
+  - intros ([[idx x] y] & Hin & H). apply andb_true_iff in H. destruct H as [H1 H2].
+    apply Pos.eqb_eq in H2. eauto 6.
+  - intros (idx & x & y & Hin & H1 & H2). exists (idx, x, y). split; auto.
+    rewrite H1, H2, Pos.eqb_refl. reflexivity.
+Qed.
+
+Lemma drawn_not_in a n ts k : ~ In k (map (tkey n) ts) -> drawn a n ts k = false.
+Proof.
+  intros Hn. destruct (drawn a n ts k) eqn:E; auto.
+  apply drawn_true_iff in E. destruct E as (idx & x & y & Hin & _ & ->).
+  exfalso. apply Hn. apply in_map_iff. exists (idx, x, y). auto.
+Qed.
+
+Lemma drawn_unique a n ALL ts i x y :
+  NoDup (map (tkey n) ALL) -> (forall t, In t ts -> In t ALL) -> In (i, x, y) ts ->
+  drawn a n ts (az_key n x y) = ba_bit a i.
+Proof.
+  intros Hnd Hsub Hin. destruct (ba_bit a i) eqn:Eb.
+  - apply drawn_true_iff. eauto 6.
+  - destruct (drawn a n ts (az_key n x y)) eqn:E; auto.
+    apply drawn_true_iff in E. destruct E as (idx & x' & y' & Hin' & Hb & Hk).
+    assert (Heq : (idx, x', y') = (i, x, y)).
+    { apply (nodup_map_eq (tkey n) ALL Hnd); auto; simpl; congruence. }
+    inversion Heq; subst. congruence.
+Qed.
+
+(* ------------------------------------------------------------------ *)
+(* the layout theorem for one configuration                             *)
+Section Layout.
+Variable compact : bool.
+Variable L : Z.
+Hypothesis Hok : layout_ok (compact, L) = true.
+
+Let n := az_matrix_size compact L.
+Let c := n / 2.
+Let DT := az_data_triples compact L.
+Let MT := az_mode_triples compact n.
+Let FC := az_function_cells compact L.
+Let total := az_total_bits L compact.
+Let nm := az_mode_len compact.
+Let varkeys := map (tkey n) (DT ++ MT).
+Let varset := pset_of varkeys.
+Let fcset := pset_of (map (ckey n) FC).
+
+Lemma layout_facts :
+  n = sp_size compact L /\ Z.odd n = true /\ 15 <= n
+  /\ forallb (triple_ok n total) DT = true
+  /\ forallb (triple_ok n nm) MT = true
+  /\ forallb (fun p : Z * Z => in_range n (fst p) (snd p)) FC = true
+  /\ NoDup varkeys
+  /\ (forall k, In k varkeys -> PositiveSet.mem k fcset = false)
+  /\ zlength (sp_data_positions compact L c) = total
+  /\ pos_list_ok (pos_map DT) 0 (sp_data_positions compact L c) = true
+  /\ zlength (sp_mode_positions compact c) = nm
+  /\ pos_list_ok (pos_map MT) 0 (sp_mode_positions compact c) = true
+  /\ cells_fixed_ok n varset fcset (sp_finder compact c) = true
+  /\ (compact = false ->
+      cells_fixed_ok n varset fcset (sp_grid n c) = true
+      /\ exists x y, In (x, y, true) (sp_finder true c) /\ in_range n x y = true
+           /\ PositiveSet.mem (az_key n x y) varset = false
+           /\ PositiveSet.mem (az_key n x y) fcset = false).
+Proof.
+  pose proof Hok as H. unfold layout_ok in H.
+  fold n in H. fold c in H. fold DT in H. fold MT in H. fold FC in H. fold total in H. fold nm in H.
+  fold varkeys in H. fold varset in H. fold fcset in H.
+  repeat (apply andb_true_iff in H; let H' := fresh "H" in destruct H as [H H']).
+  repeat match goal with |- _ /\ _ => split end; auto; try lia.
+  - apply nodup_pos_sound in H7. tauto.
+  - intros k Hk. rewrite forallb_forall in H6. specialize (H6 k Hk).
+    destruct (PositiveSet.mem k fcset); [discriminate | reflexivity].
+  - intros ->. cbn [orb] in H0. apply andb_true_iff in H0. destruct H0 as [Hg He].
+    split; [exact Hg|].
+    apply existsb_exists in He. destruct He as ([[x y] v] & Hin & Hv).
+    repeat (apply andb_true_iff in Hv; let H' := fresh "Hv" in destruct Hv as [Hv H']).
+    subst v. exists x, y. repeat split; auto.
+    + destruct (PositiveSet.mem _ varset); [discriminate | reflexivity].
+    + destruct (PositiveSet.mem _ fcset); [discriminate | reflexivity].
+Qed.
+
+Variable msg mm : list bool.
+Hypothesis Hmsg : zlength msg = total.
+Hypothesis Hmm : zlength mm = nm.
+
+Let M := az_draw compact L msg mm.
+Let rows := az_rows (Z.to_nat (am_size M)) 0 M.
+
+Lemma draw_facts :
+  am_size M = n /\ am_bad M = false
+  /\ forall k, PositiveSet.mem k (am_cells M)
+       = drawn (az_bitarr msg) n DT k || drawn (az_bitarr mm) n MT k || PositiveSet.mem k fcset.
+Proof.
+  destruct layout_facts as (_ & _ & _ & HDT & HMT & HFC & _).
+  unfold M, az_draw. fold n. fold DT. fold MT. fold FC.
+  set (m0 := {| am_size := n; am_cells := PositiveSet.empty; am_bad := false |}).
+  destruct (draw_triples_spec (az_bitarr msg) total DT m0 Hmsg HDT) as (S1 & B1 & C1).
+  set (m1 := az_draw_triples (az_bitarr msg) DT m0) in *.
+  assert (HMT' : forallb (triple_ok (am_size m1) nm) MT = true) by (rewrite S1; exact HMT).
+  destruct (draw_triples_spec (az_bitarr mm) nm MT m1 Hmm HMT') as (S2 & B2 & C2).
+  set (m2 := az_draw_triples (az_bitarr mm) MT m1) in *.
+  assert (HFC' : forallb (fun p : Z * Z => in_range (am_size m2) (fst p) (snd p)) FC = true)
+    by (rewrite S2, S1; exact HFC).
+  destruct (set_all_spec FC m2 HFC') as (S3 & B3 & C3).
+  split; [rewrite S3, S2, S1; reflexivity|].
+  split; [rewrite B3, B2, B1; reflexivity|].
+  intros k. rewrite C3, C2, C1, S2, S1. cbn [am_cells am_size m0].
+  rewrite pmem_empty. cbn [orb]. unfold fcset. rewrite pset_of_mem. reflexivity.
+Qed.
+
+Lemma rows_shape : zlength rows = n /\ Forall (fun r => zlength r = n) rows.
+Proof.
+  destruct draw_facts as (HS & _). destruct layout_facts as (_ & _ & Hn & _).
+  unfold rows. rewrite HS. split.
+  - unfold zlength. rewrite az_rows_length. lia.
+  - eapply Forall_impl; [|apply az_rows_all_length]. intros r Hr. unfold zlength. rewrite Hr, HS. lia.
+Qed.
+
+Lemma pix_cell x y : in_range n x y = true ->
+  sp_pix rows x y = drawn (az_bitarr msg) n DT (az_key n x y)
+                    || drawn (az_bitarr mm) n MT (az_key n x y)
+                    || PositiveSet.mem (az_key n x y) fcset.
+Proof.
+  intros Hr. apply in_range_spec in Hr. destruct draw_facts as (HS & _ & HC).
+  unfold rows. rewrite sp_pix_rows by (rewrite HS; lia). unfold az_get. rewrite HS. apply HC.
+Qed.
+
+(* prescribed cells that no variable bit touches have the function-pattern colour *)
+Lemma fixed_cells_ok cells : cells_fixed_ok n varset fcset cells = true ->
+  sp_cells_ok rows cells = true.
+Proof.
+  intros H. unfold cells_fixed_ok in H. unfold sp_cells_ok.
+  rewrite forallb_forall in *. intros [[x y] v] Hin. specialize (H _ Hin). cbn beta iota in H.
+  apply andb_true_iff in H. destruct H as [H Hv]. apply andb_true_iff in H. destruct H as [Hr Hvar].
+  rewrite pix_cell by exact Hr.
+  assert (Hnot : ~ In (az_key n x y) varkeys).
+  { assert (Hm : PositiveSet.mem (az_key n x y) varset = false)
+      by (destruct (PositiveSet.mem _ varset); [discriminate | reflexivity]).
+    apply pset_of_mem_false. exact Hm. }
+  unfold varkeys in Hnot. rewrite map_app in Hnot.
+  rewrite !drawn_not_in by (intros Hc; apply Hnot, in_or_app; auto).
+  cbn [orb]. exact Hv.
+Qed.
+
+Lemma finder_ok : sp_cells_ok rows (sp_finder compact c) = true.
+Proof. apply fixed_cells_ok. apply layout_facts. Qed.
+
+Lemma full_not_compact : compact = false ->
+  sp_cells_ok rows (sp_finder true c) = false /\ sp_cells_ok rows (sp_grid n c) = true.
+Proof.
+  intros Hc. destruct layout_facts as (_&_&_&_&_&_&_&_&_&_&_&_&_& Hfull).
+  destruct (Hfull Hc) as (Hgrid & x & y & Hin & Hr & Hv & Hf).
+  split; [|apply fixed_cells_ok; exact Hgrid].
+  destruct (sp_cells_ok rows (sp_finder true c)) eqn:E; auto.
+  unfold sp_cells_ok in E. rewrite forallb_forall in E. specialize (E _ Hin). cbn beta iota in E.
+  rewrite pix_cell in E by exact Hr.
+  assert (Hnot : ~ In (az_key n x y) varkeys) by (apply pset_of_mem_false; exact Hv).
+  unfold varkeys in Hnot. rewrite map_app in Hnot.
+  rewrite !drawn_not_in in E by (intros Hc'; apply Hnot, in_or_app; auto).
+  rewrite Hf in E. discriminate.
+Qed.
+
+(* reading a list of positions that a triple list fills *)
+Lemma read_positions (TS : list (Z * Z * Z)) (bits : list bool) (ps : list (Z * Z)) (bound : Z)
+      (other : positive -> bool) :
+  (forall t, In t TS -> In t (DT ++ MT)) ->
+  forallb (triple_ok n bound) TS = true ->
+  pos_list_ok (pos_map TS) 0 ps = true ->
+  zlength ps = bound -> zlength bits = bound ->
+  (forall x y, in_range n x y = true ->
+     sp_pix rows x y = drawn (az_bitarr bits) n TS (az_key n x y) || other (az_key n x y)) ->
+  (forall t, In t TS -> other (tkey n t) = false) ->
+  map (fun p => sp_pix rows (fst p) (snd p)) ps = bits.
+Proof.
+  intros Hsub Hts Hpl Hlps Hlb Hpix Hother.
+  destruct layout_facts as (_&_&_&_&_&_& Hnd &_).
+  apply (nth_ext _ _ false false).
+  { rewrite map_length. unfold zlength in *. lia. }
+  intros i Hi. rewrite map_length in Hi.
+  rewrite (nth_indep _ false (sp_pix rows (fst (0, 0)) (snd (0, 0)))) by (rewrite map_length; exact Hi).
+  rewrite (map_nth (fun p => sp_pix rows (fst p) (snd p)) ps (0, 0) i).
+  pose proof (pos_list_ok_nth ps (pos_map TS) 0 Hpl i Hi) as Hf.
+  unfold pos_map in Hf. apply pos_map_find in Hf.
+  destruct Hf as [(idx & x & y & Hin & Hk & Hv) | Hf]; [|rewrite PositiveMap.gempty in Hf; discriminate].
+  rewrite forallb_forall in Hts. pose proof (Hts _ Hin) as Ht. unfold triple_ok in Ht.
+  apply andb_true_iff in Ht. destruct Ht as [Ht Hi2]. apply andb_true_iff in Ht. destruct Ht as [Hr Hi1].
+  assert (Hidx : idx = Z.of_nat i) by (apply Z2Pos.inj in Hk; lia). subst idx.
+  rewrite Hv. cbn [fst snd]. rewrite Hpix by exact Hr.
+  rewrite (drawn_unique _ n (DT ++ MT) TS (Z.of_nat i) x y Hnd Hsub Hin).
+  specialize (Hother _ Hin). cbn [tkey] in Hother. rewrite Hother, orb_false_r.
+  rewrite ba_bit_nth by lia. rewrite Nat2Z.id. reflexivity.
+Qed.
+
+Lemma read_data :
+  map (fun p => sp_pix rows (fst p) (snd p)) (sp_data_positions compact L c) = msg.
+Proof.
+  destruct layout_facts as (_&_&_& HDT & HMT & _ & Hnd & Hfc & Hlen & Hpl & _).
+  apply (read_positions DT msg _ total
+          (fun k => drawn (az_bitarr mm) n MT k || PositiveSet.mem k fcset)); auto.
+  - intros t Ht. apply in_or_app. auto.
+  - intros x y Hr. rewrite pix_cell by exact Hr. rewrite orb_assoc. reflexivity.
+  - intros t Ht.
+    assert (Hk : In (tkey n t) varkeys) by (unfold varkeys; apply in_map, in_or_app; auto).
+    rewrite (Hfc _ Hk), orb_false_r.
+    apply drawn_not_in. intros Hc'. unfold varkeys in Hnd. rewrite map_app in Hnd.
+    eapply nodup_app_disjoint; [exact Hnd | apply in_map; exact Ht | exact Hc'].
+Qed.
+
+Lemma read_mode :
+  map (fun p => sp_pix rows (fst p) (snd p)) (sp_mode_positions compact c) = mm.
+Proof.
+  destruct layout_facts as (_&_&_& HDT & HMT & _ & Hnd & Hfc & _ & _ & Hlen & Hpl & _).
+  apply (read_positions MT mm _ nm
+          (fun k => drawn (az_bitarr msg) n DT k || PositiveSet.mem k fcset)); auto.
+  - intros t Ht. apply in_or_app. auto.
+  - intros x y Hr. rewrite pix_cell by exact Hr.
+    destruct (drawn (az_bitarr msg) n DT _), (drawn (az_bitarr mm) n MT _), (PositiveSet.mem _ fcset);
+      reflexivity.
+  - intros t Ht.
+    assert (Hk : In (tkey n t) varkeys) by (unfold varkeys; apply in_map, in_or_app; auto).
+    rewrite (Hfc _ Hk), orb_false_r.
+    apply drawn_not_in. intros Hc'. unfold varkeys in Hnd. rewrite map_app in Hnd.
+    eapply nodup_app_disjoint; [exact Hnd | exact Hc' | apply in_map; exact Ht].
+Qed.
+
+End Layout.
+
+(* ------------------------------------------------------------------ *)
+(* the layer theorem: what a reader sees of a drawn symbol              *)
+Theorem az_layout_read : forall (compact : bool) (L : Z) (msg mm : list bool),
+  (if compact then 1 <= L <= 4 else 1 <= L <= 32) ->
+  zlength msg = az_total_bits L compact ->
+  zlength mm = az_mode_len compact ->
+  let n := az_matrix_size compact L in
+  let c := n / 2 in
+  let M := az_draw compact L msg mm in
+  let rows := az_rows (Z.to_nat (am_size M)) 0 M in
+  am_size M = n /\ am_bad M = false
+  /\ n = sp_size compact L /\ Z.odd n = true /\ 15 <= n
+  /\ zlength rows = n /\ Forall (fun r => zlength r = n) rows
+  /\ sp_cells_ok rows (sp_finder compact c) = true
+  /\ (compact = false ->
+      sp_cells_ok rows (sp_finder true c) = false /\ sp_cells_ok rows (sp_grid n c) = true)
+  /\ map (fun p => sp_pix rows (fst p) (snd p)) (sp_mode_positions compact c) = mm
+  /\ map (fun p => sp_pix rows (fst p) (snd p)) (sp_data_positions compact L c) = msg
+  /\ zlength (sp_data_positions compact L c) = sp_capacity compact L.
+Proof.
+  intros compact L msg mm HL Hmsg Hmm n c M rows.
+  pose proof (layout_ok_cfg compact L HL) as Hok.
+  destruct (layout_facts compact L Hok) as (F1 & F2 & F3 & _ & _ & _ & _ & _ & F9 & _).
+  destruct (draw_facts compact L Hok msg mm Hmsg Hmm) as (D1 & D2 & _).
+  destruct (rows_shape compact L Hok msg mm Hmsg Hmm) as (R1 & R2).
+  repeat match goal with |- _ /\ _ => split end; auto.
+  - apply (finder_ok compact L Hok msg mm Hmsg Hmm).
+  - intros Hc. apply (full_not_compact compact L Hok msg mm Hmsg Hmm Hc).
+  - apply (read_mode compact L Hok msg mm Hmsg Hmm).
+  - apply (read_data compact L Hok msg mm Hmsg Hmm).
 Qed.
